@@ -810,3 +810,598 @@ def _correspond(R, ck, cf, cp, cc, ch):
             R.notes.append("generated iqrm_mask builds its window with the INPUT array's strides: the model's mask depends on the memory layout "
                            f"(same mask for stride ratio 2 on the witness vector: {vals[1]})")
     R.extra_cov["correspondence_cases"] = len(ck) + len(cf) + len(cp) + len(cc2) + len(ch)
+
+
+# ------------------------------------------------------------------------------------------------
+# at-scale search (check.py calls it when something no longer checks and no small failing input was found, always in the
+# thorough tier, and with VERIF_SCALE=1).  Silent on the unchanged tree.  Every case carries the numpy seed sequence of its
+# generator: data = the function named in case["generator"], called with numpy.random.default_rng(case["np_seed"]).
+# ------------------------------------------------------------------------------------------------
+SC_EXTREMES = (3.0e38, -3.0e38, 1.0e-30, -1.0e-30, 16777216.0, 16777218.0, -16777216.0, 2147483648.0, 65504.0, 0.5)
+
+
+def _sc_rng(R, *ids):
+    seed = [int(R.seed), 1616] + [int(i) for i in ids]
+    return np.random.default_rng(seed), seed
+
+
+def _sc_data(nprng, nbits, nchans, nsamps, plant=True, extremes=False):
+    """(nsamps, nchans) samples at depth nbits (uint8; float32 for 32 bit, integer valued unless `extremes`), with three planted
+    channels (dead / maximal variance / a spike every 64 samples) when `plant`; at 32 bit `extremes` sprinkles values near the float32 limits"""
+    hi = (1 << nbits) if nbits < 32 else 64
+    if nbits == 1 and plant:        # one-bit channels of different duty cycle (equal ones have variances within 1e-6 of each other)
+        x = (nprng.random((nsamps, nchans), dtype=np.float32) < nprng.uniform(0.3, 0.7, nchans).astype(np.float32)[None, :]).astype(np.uint8)
+    else:
+        x = nprng.integers(0, hi, (nsamps, nchans), dtype=np.uint8)
+    planted = {}
+    if plant and nchans >= 8:
+        ch = [int(c) for c in nprng.choice(nchans, 3, replace=False)]
+        x[:, ch[0]] = hi - 1
+        x[0::2, ch[1]] = 0
+        x[1::2, ch[1]] = hi - 1
+        x[:, ch[2]] = (hi - 1) // 2
+        x[int(nprng.integers(64))::64, ch[2]] = hi - 1                # a spike every 64 samples: kurtosis about 60 whatever the length
+        planted = {"dead": ch[0], "loud": ch[1], "spiky": ch[2]}
+    if nbits == 32:
+        x = x.astype(np.float32)
+        if extremes:
+            k = min(4096, x.size // 4)
+            x.reshape(-1)[nprng.integers(0, x.size, k)] = np.asarray(SC_EXTREMES, np.float32)[nprng.integers(0, len(SC_EXTREMES), k)]
+    return x, planted
+
+
+def _sc_mask(nprng, nchans):
+    """random channel mask with at least one masked and (for more than one channel) one unmasked channel"""
+    m = nprng.integers(0, 2, nchans).astype(bool)
+    m[int(nprng.integers(nchans))] = True
+    if nchans > 1:
+        free = int(nprng.integers(nchans))
+        m[free] = False
+        if not m.any():
+            m[(free + 1) % nchans] = True
+    return m
+
+
+def _sc_user(fch1, foff, nchans, ranges):
+    """o_user on a dyadic grid: centre frequencies exact in float64 and float32, closed ranges; None when the grid is not exact"""
+    f = fch1 + np.arange(nchans, dtype=np.float64) * foff
+    k = 1 << 20
+    exact = (float(fch1 * k) == int(fch1 * k) and float(foff * k) == int(foff * k)
+             and np.array_equal(f * k, int(fch1 * k) + np.arange(nchans, dtype=np.int64) * int(foff * k))
+             and np.array_equal(f.astype(np.float32).astype(np.float64), f)
+             and all(float(np.float32(e)) == float(e) for r in ranges for e in r))
+    if not exact:
+        return None
+    m = np.zeros(nchans, bool)
+    for lo, hi in ranges:
+        m |= (f >= lo) & (f <= hi)
+    return m
+
+
+def _sc_ranges(nprng, kind, fch1, foff, nchans):
+    """range lists on the grid fch1 + c*foff: end points are channel centres or a quarter of a channel away from one"""
+    f = lambda c: fch1 + c * foff
+    lo_f, hi_f = min(f(0), f(nchans - 1)), max(f(0), f(nchans - 1))
+    q = 0.25 * foff
+    if kind == "none":
+        return None
+    if kind == "empty":
+        return []
+    if kind == "inside":
+        a = int(nprng.integers(nchans - 2))
+        b = int(nprng.integers(a, min(nchans, a + max(2, nchans // 8))))
+        return [tuple(sorted((f(a) - q, f(b) + q)))]
+    if kind == "overlap":
+        a = int(nprng.integers(1, nchans - 5))
+        w = max(2, nchans // 16)
+        r1 = tuple(sorted((f(a) - q, f(min(nchans - 1, a + w)) + q)))
+        r2 = tuple(sorted((f(min(nchans - 1, a + w // 2)) - q, f(min(nchans - 1, a + 2 * w)) + q)))
+        return [r1, r2, r1]
+    if kind == "outside":
+        return [(hi_f + 10.0, hi_f + 20.0), (lo_f - 50.0, lo_f - 2 * abs(q))]
+    if kind == "edges":
+        a = int(nprng.integers(nchans - 1))
+        b = int(nprng.integers(a, min(nchans, a + max(2, nchans // 8))))
+        c = int(nprng.integers(nchans))
+        return [tuple(sorted((f(a), f(b)))), (f(c), f(c)), (f(nchans - 1), f(nchans - 1))]
+    if kind == "reversed":
+        return [(hi_f, lo_f)]
+    if kind == "tail":                              # the last channels only: indices above 65535 when there are that many
+        return [tuple(sorted((f(nchans - 3) - q, f(nchans - 1) + q)))]
+    raise ValueError(kind)
+
+
+SC_NEGL = 64 * float(np.finfo(np.float32).eps)
+
+
+def _sc_o_mad(x, thr):
+    """o_mad; additionally not demanded either way when a one-sided scale is negligible relative to the largest deviation (a scale
+    of that size is within float32 rounding of the deviations; the implementation may or may not count it as zero)"""
+    lo, hi, fr = o_mad(x, thr)
+    x = np.asarray(x, dtype=np.float32).astype(np.float64)
+    loc = np.median(x)
+    dev = np.abs(x - loc)
+    big = SC_NEGL * float(dev.max())
+    for side in (dev[x <= loc], dev[x >= loc]):
+        s = _side(side)[0]
+        fr = fr or 0 < abs(s) <= big
+    return lo, hi, fr
+
+
+def _sc_o_iqrm(x, thr, radius=5):
+    lo, hi, fr = o_iqrm(x, thr, radius)
+    xf = np.asarray(x).astype(np.float64)
+    n = len(xf)
+    for lag in list(range(-radius, 0)) + list(range(1, radius + 1)):
+        d = np.asarray(xf - xf[np.clip(np.arange(n) + lag, 0, n - 1)], dtype=np.float32).astype(np.float64)
+        q1, q3 = np.percentile(d, [25, 75])
+        s = (q3 - q1) / NORM_IQR
+        fr = fr or 0 < abs(s) <= SC_NEGL * float(np.abs(d - np.median(d)).max())
+    return lo, hi, fr
+
+
+def _sc_o_stats(method, thr, var, skew, kurt):
+    f = _sc_o_mad if method == "mad" else _sc_o_iqrm
+    lo = np.zeros(len(var), bool)
+    hi = np.zeros(len(var), bool)
+    fr = False
+    for v in (var, skew, kurt):
+        a, b, c = f(v, thr)
+        lo |= a
+        hi |= b
+        fr = fr or c
+    return lo, hi, fr
+
+
+def _sc_moments(x):
+    """per-channel mean, variance, skewness, excess kurtosis of x (nsamps, nchans) in float64, a few channels at a time"""
+    nsamps, nchans = x.shape
+    mu, var, skew, kurt = (np.zeros(nchans) for _ in range(4))
+    step = max(1, (1 << 21) // max(1, nsamps))
+    with np.errstate(all="ignore"):
+        for c0 in range(0, nchans, step):
+            b = x[:, c0:c0 + step].astype(np.float64)
+            m = b.mean(axis=0)
+            cen = b - m
+            c2 = cen * cen
+            v = c2.mean(axis=0)
+            pos = v > 0
+            vv = np.where(pos, v, 1.0)
+            mu[c0:c0 + step] = m
+            var[c0:c0 + step] = v
+            skew[c0:c0 + step] = np.where(pos, (c2 * cen).mean(axis=0) / vv ** 1.5, 0.0)
+            kurt[c0:c0 + step] = np.where(pos, (c2 * c2).mean(axis=0) / vv ** 2 - 3.0, -3.0)
+    return mu, var, skew, kurt
+
+
+def _sc_outfile(R, key, path, x, mask, nbits, case, mv=None, default=None):
+    """the cleaned file re-read with FilReader: length, unmasked channels bit-identical, masked channels constant = mask value
+    (mv: explicit value; default: the expected default value, demanded as in the small-scope oracle)"""
+    from sigpyproc.readers import FilReader
+    nsamps, nchans = x.shape
+    g = FilReader(path)
+    h = g.header
+    nbytes = os.path.getsize(path) - int(h.stream_info.entries[0].hdrlen)
+    if h.nsamples != nsamps or h.nchans != nchans or h.nbits != nbits or nbytes * 8 != nsamps * nchans * nbits:
+        R.fail(key + "-length", "cleaned file at scale has a different length/shape/depth than the input",
+               dict(case, out_nsamples=int(h.nsamples), out_nchans=int(h.nchans), out_nbits=int(h.nbits), data_bytes=int(nbytes),
+                    expected_bytes=nsamps * nchans * nbits // 8))
+        return
+    got = np.asarray(g.read_block(0, nsamps).data)
+    if got.shape != (nchans, nsamps):
+        R.fail(key + "-length", "cleaned file at scale re-reads with a different shape", dict(case, got_shape=list(got.shape)))
+        return
+    exp = np.ascontiguousarray(x.T)
+    if nbits == 32 and got.dtype == np.float32 and exp.dtype == np.float32:
+        neq = np.ascontiguousarray(got).view(np.uint32) != exp.view(np.uint32)
+    else:
+        neq = got != exp
+    rows = neq.any(axis=1) & ~mask
+    if rows.any():
+        c = int(np.argmax(rows))
+        s = int(np.argmax(neq[c]))
+        R.fail(key + "-unmasked-changed", "at scale a sample of an unmasked channel differs from the input",
+               dict(case, channel=c, sample=s, got=float(got[c, s]), expected=float(exp[c, s]), n_channels_changed=int(rows.sum())))
+    del neq, exp
+    if mask.any():
+        w = got[mask]
+        v0 = w.flat[0]
+        const = bool(np.all(w == v0))
+        if mv is not None:
+            ok = const and cast_ok(v0, mv, nbits)
+            want = float(mv)
+        else:
+            v0f = float(v0)
+            ok = const and (abs(v0f - default) <= 1e-3 * max(1.0, abs(default)) if nbits == 32 else (v0f == int(v0f) and abs(v0f - default) < 1 + 1e-3))
+            want = float(default)
+        if not ok:
+            badrow = int(np.argmax((w != v0).any(axis=1))) if not const else 0
+            c = int(np.where(mask)[0][badrow])
+            s = int(np.argmax(w[badrow] != v0)) if not const else 0
+            R.fail(key + ("-masked-value" if mv is not None else "-default-value"),
+                   "at scale a sample of a masked channel is not the mask value" + ("" if mv is not None else " (default: median of the unmasked channel means)"),
+                   dict(case, expected=want, first_written=float(v0), channel=c, sample=s, got=float(w[badrow, s]),
+                        written_values=[float(t) for t in np.unique(w)[:6]]))
+
+
+# ---- (a) the kernel on blocks of 2**16 .. 2**24 elements --------------------------------------------------------------------
+def _scale_kernel(R, kernels):
+    shapes = [(1, 65535), (1, 65536), (1, 65537), (65535, 1), (65536, 1), (65537, 1), (65537, 3), (256, 256), (257, 255),
+              (512, 512), (511, 513), (1024, 1024), (1023, 1025), ((1 << 20) + 1, 1), ((1 << 20) + 1, 5), (2048, 2048), (2047, 2049),
+              (1 << 22, 1), (3, (1 << 22) // 3 + 1), (4096, 4096), (4097, 4096), (16, (1 << 20) - 1), (1, (1 << 24) + 1), ((1 << 24) + 1, 1),
+              (70001, 240)]
+    for i, (nchans, nsamps) in enumerate(shapes):
+        for dt in (np.uint8, np.float32):
+            nprng, seed = _sc_rng(R, 1, i, dt().itemsize)
+            n = nchans * nsamps
+            arr = nprng.integers(0, 256, n + 3, dtype=np.uint8)
+            if dt is np.float32:
+                arr = (arr.astype(np.float32) - np.float32(128)) * np.float32((1.0, 2.3e36, 0.125)[i % 3])     # up to 2.9e38
+                mv = dt((3.0e38, -3.5, 0.0, -1.0e-30, 16777216.0)[i % 5])
+            else:
+                mv = dt((255, 0, 1, 254, 128)[i % 5])
+            mask = _sc_mask(nprng, nchans)
+            case = {"op": "kernels.mask_channels", "nchans": nchans, "nsamps": nsamps, "dtype": dt.__name__, "maskvalue": float(mv),
+                    "masked_channels": int(mask.sum()), "np_seed": seed, "generator": "props/c16.py _scale_kernel"}
+            exp = arr.copy()
+            exp[:n].reshape(nsamps, nchans)[:, mask] = mv
+            R.tick(case)
+            R.case(("scale", "kernel", nchans, nsamps, dt.__name__), regime="scale")
+            try:
+                kernels.mask_channels(arr, mask, mv, nchans, nsamps)
+            except Exception as e:  # noqa: BLE001
+                R.fail("scale-kernel-raises", f"mask_channels raised {type(e).__name__} on a large block", dict(case, error=str(e)[:200]))
+                continue
+            if not np.array_equal(arr, exp):
+                j = int(np.argmax(arr != exp))
+                R.fail("scale-kernel-mask-channels", "mask_channels on a large block differs from its definition",
+                       dict(case, first_bad_index=j, channel=j % nchans if j < n else None, sample=j // nchans if j < n else None,
+                            got=float(arr[j]), expected=float(exp[j]), n_bad=int((arr != exp).sum())))
+            del arr, exp
+
+
+# ---- (b) the outlier rules on vectors of 2**16 .. 2**24 channels ------------------------------------------------------------
+def _sc_vector(nprng, kind, n):
+    if kind == "allequal":
+        return np.full(n, -7.5, np.float32), []
+    if kind == "ints":
+        v = nprng.integers(-20, 21, n).astype(np.float32)
+    else:
+        v = nprng.normal(10.0, 1.0, n).astype(np.float32)
+    pos = sorted({p for p in (0, n - 1, 65535, 65536, n // 2, (1 << 20) - 1, 1 << 20) if 0 <= p < n})
+    for j, p in enumerate(pos):
+        v[p] += np.float32((-1) ** j * (60.0 + 40.0 * j))
+    return v, pos
+
+
+def _scale_rules(R, rfi):
+    table = [("mad", "normal", 65535, 3.0), ("mad", "normal", 65536, 3.0), ("mad", "normal", 65537, 6.0), ("mad", "ints", 65537, 3.0),
+             ("mad", "allequal", 65537, 3.0), ("mad", "normal", (1 << 18) + 1, 3.0), ("mad", "normal", (1 << 20) + 1, 3.0),
+             ("mad", "normal", (1 << 22) + 1, 4.5), ("mad", "normal", (1 << 24) + 1, 3.0),
+             ("iqrm", "normal", 65535, 3.0), ("iqrm", "normal", 65536, 3.0), ("iqrm", "normal", 65537, 6.0), ("iqrm", "ints", 65537, 3.0),
+             ("iqrm", "allequal", 65537, 3.0), ("iqrm", "normal", (1 << 18) + 1, 3.0), ("iqrm", "normal", (1 << 20) + 1, 4.5)]
+    for i, (meth, kind, n, thr) in enumerate(table):
+        nprng, seed = _sc_rng(R, 2, i)
+        v, planted = _sc_vector(nprng, kind, n)
+        radius = 5 if n != 65536 else 3
+        case = {"op": f"rfi.{'double_mad_mask' if meth == 'mad' else 'iqrm_mask'}", "n": n, "vector": kind, "threshold": thr, "planted_at": planted,
+                "np_seed": seed, "generator": "props/c16.py _sc_vector"}
+        if meth == "iqrm":
+            case["radius"] = radius
+        R.tick(case)
+        R.case(("scale", "rule", meth, kind, n, thr), regime="scale")
+        try:
+            got = np.asarray(rfi.double_mad_mask(v, thr) if meth == "mad" else rfi.iqrm_mask(v, thr, radius))
+        except Exception as e:  # noqa: BLE001
+            R.fail(f"scale-{meth}-raises", f"{meth} rule raised {type(e).__name__} on a long vector", dict(case, error=str(e)[:200]))
+            continue
+        lo, hi, fr = _sc_o_mad(v, thr) if meth == "mad" else _sc_o_iqrm(v, thr, radius)
+        if fr:
+            R.extra_cov["scale_decisions_not_demanded"] = R.extra_cov.get("scale_decisions_not_demanded", 0) + 1
+            continue
+        if got.shape != (n,) or got.dtype != np.bool_:
+            R.fail(f"scale-{meth}-decision", f"{meth} rule on a long vector does not return one boolean per channel", dict(case, got_shape=list(got.shape), got_dtype=str(got.dtype)))
+            continue
+        miss, extra = lo & ~got, got & ~hi
+        if miss.any() or extra.any():
+            R.fail(f"scale-{meth}-decision", f"{meth} rule on a long vector differs from its definition",
+                   dict(case, n_flagged=int(got.sum()), n_must_flag=int(lo.sum()), n_may_flag=int(hi.sum()), missed=np.where(miss)[0][:8].tolist(),
+                        spurious=np.where(extra)[0][:8].tolist()))
+        del v, got, lo, hi
+
+
+# ---- (c) apply_channel_mask on long / wide files ----------------------------------------------------------------------------
+def _scale_files(R, d):
+    import filutil
+    from sigpyproc.readers import FilReader
+    table = [   # nbits, nchans, nsamps, gulps, input split into files at these samples
+        (8, 1024, 40000, (16384, 16385, 4097, 70000), []),        # blocks of 2**24 elements, just above, 2**22 + ..., one block of 4.1e7
+        (8, 4, 300000, (7, 16384, 65536, 70001, 262144), [123457]),   # 42858 blocks; blocks of 2**16, 2**18, 2**20 elements; two input files
+        (32, 256, 70000, (16384, 5000, 65536, 65537), []),        # blocks of 2**22, 2**24, 2**24 + 256 elements, values near the float32 limits
+        (1, 128, 200000, (16384, 4097, 70000, 131072), [70001]),  # packed depth: blocks of 2**21, 2**24 unpacked elements
+        (2, 64, 140000, (16384, 9999, 65537), []),
+        (4, 32, 140000, (1000, 16384, 65544), []),
+        (8, 70001, 64, (1, 15, 16384), []),                       # more than 65536 channels
+        (32, 65537, 40, (16, 16384), []),
+        (1, 65544, 32, (3, 16384), []),
+    ]
+    for i, (nbits, nchans, nsamps, gulps, splits) in enumerate(table):
+        nprng, seed = _sc_rng(R, 3, i)
+        x, _ = _sc_data(nprng, nbits, nchans, nsamps, plant=False, extremes=True)
+        paths = filutil.write_fil_set(os.path.join(d, f"in{i}"), x, nbits, splits)
+        top = (1 << nbits) - 1
+        for j, gulp in enumerate(gulps):
+            mask = _sc_mask(nprng, nchans)
+            if nbits == 32:
+                mv = (3.0e38, -2.5, 0.0, 16777216.0)[j % 4]
+            else:
+                mv = (top, 0, int(nprng.integers(top + 1)), max(0, top - 1))[j % 4]
+            out = os.path.join(d, "out.fil")
+            case = {"op": "apply_channel_mask", "nbits": nbits, "nchans": nchans, "nsamps": nsamps, "splits": splits, "gulp": gulp, "mask_value": mv,
+                    "masked_channels": int(mask.sum()), "first_masked": np.where(mask)[0][:6].tolist(), "np_seed": seed, "mask_draw": j,
+                    "generator": "props/c16.py _scale_files: _sc_data(rng, nbits, nchans, nsamps, plant=False, extremes=True) written with filutil.write_fil_set, then one _sc_mask(rng, nchans) per gulp"}
+            R.tick(case)
+            R.case(("scale", "acm", nbits, nchans, nsamps, gulp), regime="scale")
+            try:
+                FilReader(paths if len(paths) > 1 else paths[0]).apply_channel_mask(mask, mv, outfile_name=out, gulp=gulp, quiet=True)
+            except Exception as e:  # noqa: BLE001
+                R.fail("scale-file-raises", f"apply_channel_mask raised {type(e).__name__} at scale", dict(case, error=str(e)[:200]))
+                continue
+            try:
+                _sc_outfile(R, "scale-file", out, x, mask, nbits, case, mv=mv)
+            except Exception as e:  # noqa: BLE001
+                R.fail("scale-file-unreadable", f"the file written by apply_channel_mask at scale cannot be re-read ({type(e).__name__})", dict(case, error=str(e)[:200]))
+            if os.path.exists(out):
+                os.remove(out)
+        for p in paths:
+            os.remove(p)
+        del x
+
+
+# ---- (d) clean_rfi on long / wide files -------------------------------------------------------------------------------------
+def _scale_clean(R, d, rfi):
+    from sigpyproc.readers import FilReader
+    table = [   # nbits, nchans, nsamps, (fch1, foff), [(gulp, method, threshold, range kind, custom id, explicit mask value?)]
+        (8, 256, 70000, (1500.0, -0.390625), [(16384, "mad", 3.0, "inside", None, False), (5000, "iqrm", 3.0, "overlap", 2, False), (70001, "mad", 4.0, "edges", 1, True)]),
+        (32, 128, 50000, (1400.0, 0.5), [(16384, "iqrm", 3.0, "edges", 3, False), (65537, "mad", 2.0, "none", None, True)]),
+        (2, 64, 100000, (1500.0, -1.0), [(16384, "mad", 3.0, "overlap", 4, True), (30001, "iqrm", 3.0, "inside", None, False)]),
+        (1, 64, 120000, (1500.0, -1.0), [(16384, "iqrm", 3.0, "inside", 5, False)]),
+        (4, 32, 80000, (1400.0, 0.5), [(65539, "mad", 3.0, "outside", 2, False)]),
+        (8, 4096, 3000, (1500.0, -0.0625), [(1000, "iqrm", 3.0, "overlap", 2, False), (257, "mad", 3.0, "tail", None, True)]),   # blocks of 2**22 elements
+        (8, 65537, 48, (1500.0, -0.015625), [(16384, "mad", 3.0, "tail", 1, False), (5, "iqrm", 4.0, "edges", None, True)]),     # channel indices above 65535
+        (32, 70001, 24, (1500.0, -0.015625), [(7, "mad", 3.0, "inside", 2, False)]),
+        (8, 16, 40000, (1500.0, -1.0), [(3, "mad", 3.0, "edges", None, False), (1, "iqrm", 3.0, "inside", 1, True)]),          # 13334 / 40000 blocks, twice
+    ]
+    for i, (nbits, nchans, nsamps, (fch1, foff), runs) in enumerate(table):
+        nprng, seed = _sc_rng(R, 4, i)
+        x, planted = _sc_data(nprng, nbits, nchans, nsamps)
+        p = os.path.join(d, f"cin{i}.fil")
+        write_fil(p, x, nbits, fch1=fch1, foff=foff)
+        mu, var, skew, kurt = _sc_moments(x)
+        top = (1 << nbits) - 1
+        for j, (gulp, method, thr, rkind, cid, explicit) in enumerate(runs):
+            ranges = _sc_ranges(nprng, rkind, fch1, foff, nchans)
+            mv = None if not explicit else (int(nprng.integers(top + 1)) if nbits < 32 else (-2.5, 11.0)[j % 2])
+            out = os.path.join(d, "cout.fil")
+            case = {"op": "clean_rfi", "nbits": nbits, "nchans": nchans, "nsamps": nsamps, "fch1": fch1, "foff": foff, "method": method, "threshold": thr,
+                    "freq_mask": ranges, "custom": cid, "mask_value": mv, "gulp": gulp, "planted": planted, "np_seed": seed, "run": j,
+                    "generator": "props/c16.py _scale_clean: _sc_data(rng, nbits, nchans, nsamps), then per run _sc_ranges(rng, kind, fch1, foff, nchans) and the mask value"}
+            R.tick(case)
+            R.case(("scale", "clean", nbits, nchans, nsamps, gulp, method, rkind, cid), regime="scale")
+            try:
+                _o, m = FilReader(p).clean_rfi(method=method, threshold=thr, freq_mask=ranges, custom_funcn=None if cid is None else custom_fn(cid, nchans),
+                                               mask_value=mv, outfile_name=out, gulp=gulp, quiet=True)
+            except Exception as e:  # noqa: BLE001
+                R.fail("scale-clean-raises", f"clean_rfi raised {type(e).__name__} at scale", dict(case, error=str(e)[:200]))
+                continue
+            chan, user, st, cust = (np.asarray(a).astype(bool) for a in (m.chan_mask, m.user_mask, m.stats_mask, m.custom_mask))
+            if any(a.shape != (nchans,) for a in (chan, user, st, cust)):
+                R.fail("scale-union", "a mask returned by clean_rfi at scale does not have one entry per channel",
+                       dict(case, shapes=[list(a.shape) for a in (chan, user, st, cust)]))
+                continue
+            idx = lambda b: np.where(b)[0][:8].tolist()
+            if not np.array_equal(chan, user | st | cust):
+                R.fail("scale-union", "at scale chan_mask is not the union of user, statistics and custom mask",
+                       dict(case, n_chan=int(chan.sum()), n_union=int((user | st | cust).sum()), differ_at=idx(chan ^ (user | st | cust))))
+            eu = _sc_user(fch1, foff, nchans, ranges or [])
+            if eu is not None and not np.array_equal(user, eu):
+                R.fail("scale-user-mask-range", "at scale user_mask is not {channels whose centre frequency lies in one of the closed ranges}",
+                       dict(case, n_got=int(user.sum()), n_expected=int(eu.sum()), differ_at=idx(user ^ eu)))
+            cm, cv, cs, ck = (np.asarray(a) for a in (m.chan_mean, m.chan_var, m.chan_skew, m.chan_kurt))
+            if not (cm.shape == cv.shape == (nchans,) and np.allclose(cm, mu, rtol=1e-3, atol=1e-3) and np.allclose(cv, var, rtol=1e-3, atol=1e-3)):
+                bad = ~(np.isclose(cm, mu, rtol=1e-3, atol=1e-3) & np.isclose(cv, var, rtol=1e-3, atol=1e-3)) if cm.shape == cv.shape == (nchans,) else np.ones(nchans, bool)
+                c = int(np.argmax(bad))
+                R.fail("scale-stats-vector", "at scale chan_mean / chan_var of the returned mask are not the per-channel mean / variance of the file",
+                       dict(case, channel=c, n_bad=int(bad.sum()), got_mean=float(cm[c]) if cm.shape == (nchans,) else None, expected_mean=float(mu[c]),
+                            got_var=float(cv[c]) if cv.shape == (nchans,) else None, expected_var=float(var[c])))
+            elif not (np.allclose(cs, skew, rtol=1e-2, atol=1e-2) and np.allclose(ck, kurt, rtol=1e-2, atol=1e-2)):
+                bad = ~(np.isclose(cs, skew, rtol=1e-2, atol=1e-2) & np.isclose(ck, kurt, rtol=1e-2, atol=1e-2))
+                c = int(np.argmax(bad))
+                R.fail("scale-stats-vector", "at scale chan_skew / chan_kurt of the returned mask are not the per-channel skewness / excess kurtosis of the file",
+                       dict(case, channel=c, n_bad=int(bad.sum()), got_skew=float(cs[c]), expected_skew=float(skew[c]), got_kurt=float(ck[c]), expected_kurt=float(kurt[c])))
+            lo, hi, fr = _sc_o_stats(method, thr, cv, cs, ck)
+            if fr:
+                R.extra_cov["scale_decisions_not_demanded"] = R.extra_cov.get("scale_decisions_not_demanded", 0) + 1
+            if not fr and (np.any(lo & ~st) or np.any(st & ~hi)):
+                R.fail(f"scale-stats-mask-{method}", "at scale stats_mask is not {channels whose variance, skewness or kurtosis is beyond the threshold under the method}",
+                       dict(case, n_got=int(st.sum()), n_must=int(lo.sum()), n_may=int(hi.sum()), missed=idx(lo & ~st), spurious=idx(st & ~hi)))
+            if float(m.threshold) != float(thr):
+                R.fail("scale-threshold-recorded", "the mask does not record the threshold it was made with", dict(case, got=float(m.threshold)))
+            ec = o_custom(cid, nchans, user | st) if cid is not None else np.zeros(nchans, bool)
+            if not np.array_equal(cust, ec):
+                R.fail("scale-custom-mask", "at scale custom_mask is not the custom function applied to (user | stats)",
+                       dict(case, n_got=int(cust.sum()), n_expected=int(ec.sum()), differ_at=idx(cust ^ ec)))
+            try:
+                if mv is not None:
+                    _sc_outfile(R, "scale-clean", out, x, chan, nbits, case, mv=mv)
+                elif (~chan).any():
+                    _sc_outfile(R, "scale-clean", out, x, chan, nbits, case, default=float(np.median(mu[~chan])))
+            except Exception as e:  # noqa: BLE001
+                R.fail("scale-clean-unreadable", f"the file written by clean_rfi at scale cannot be re-read ({type(e).__name__})", dict(case, error=str(e)[:200]))
+            if os.path.exists(out):
+                os.remove(out)
+        os.remove(p)
+        del x
+
+
+# ---- (e) long histories / many channels on one RFIMask ----------------------------------------------------------------------
+def _scale_history(R, rfi, Header):
+    kinds = ("empty", "inside", "overlap", "outside", "edges", "reversed", "tail")
+    table = [   # nchans, (fch1, foff), number of operations, number of statistics operations among them
+        (16, (1500.0, -1.0), 1500, 150),
+        (65537, (1500.0, -0.015625), 120, 6),
+        ((1 << 20) + 1, (1500.0, -0.0009765625), 14, 1),
+    ]
+    for i, (n, (fch1, foff), nops, nmeth) in enumerate(table):
+        nprng, seed = _sc_rng(R, 5, i)
+        hdr = Header(filename="x.fil", data_type="filterbank", nchans=n, foff=foff, fch1=fch1, nbits=8, tsamp=0.001, tstart=60000.0, nsamples=64)
+        vecs = []
+        for _ in range(3):
+            v = (nprng.integers(-8, 9, n) / 4 + nprng.normal(0, 1, n)).astype(np.float32)
+            for pos in {0, n - 1, min(n - 1, 65536), int(nprng.integers(n))}:
+                v[pos] += np.float32(nprng.choice([-1, 1]) * 96.0)
+            vecs.append(v)
+        thr = 3.0
+        m = rfi.RFIMask(thr, hdr, np.zeros(n, np.float32), vecs[0], vecs[1], vecs[2], np.zeros(n, np.float32), np.zeros(n, np.float32))
+        meth_at = set(int(t) for t in nprng.choice(np.arange(1, nops), nmeth, replace=False))
+        base = {"op": "history", "nchans": n, "fch1": fch1, "foff": foff, "threshold": thr, "operations": nops, "np_seed": seed,
+                "generator": "props/c16.py _scale_history (vectors, then one operation per step drawn from the same generator)"}
+        R.case(("scale", "history", n, nops), regime="scale")
+        prev = np.asarray(m.chan_mask).astype(bool).copy()
+        ops = []
+        bands = {}
+        for k in range(nops):
+            if k in meth_at:
+                op = ("method", ("mad", "iqrm")[int(nprng.integers(2))] if n <= 65537 else "mad")
+            elif k % 3 == 2:
+                op = ("funcn", int(nprng.integers(6)))
+            else:
+                op = ("mask", _sc_ranges(nprng, kinds[int(nprng.integers(len(kinds)))], fch1, foff, n))
+            ops.append(op)
+            case = dict(base, step=k, last_ops=ops[-6:], masked_before=int(prev.sum()))
+            R.tick(case)
+            try:
+                if op[0] == "mask":
+                    m.apply_mask(op[1])
+                elif op[0] == "method":
+                    m.apply_method(op[1])
+                else:
+                    m.apply_funcn(custom_fn(op[1], n))
+            except Exception as e:  # noqa: BLE001
+                R.fail("scale-history-raises", f"an RFIMask operation raised {type(e).__name__} in a long history / on many channels", dict(case, error=str(e)[:200]))
+                break
+            cur = np.asarray(m.chan_mask).astype(bool).copy()
+            user, st, cust = (np.asarray(a).astype(bool) for a in (m.user_mask, m.stats_mask, m.custom_mask))
+            if cur.shape != (n,) or np.any(prev & ~cur):
+                R.fail("scale-monotone", "an operation of a long history removed a channel from chan_mask", dict(case, removed=np.where(prev & ~cur)[0][:8].tolist() if cur.shape == (n,) else None))
+                break
+            if np.any((user | st | cust) & ~cur):
+                R.fail("scale-covers", "in a long history chan_mask does not contain user_mask | stats_mask | custom_mask", dict(case, missing=np.where((user | st | cust) & ~cur)[0][:8].tolist()))
+                break
+            if op[0] == "mask":
+                comp, exp = user, _sc_user(fch1, foff, n, op[1])
+            elif op[0] == "funcn":
+                comp, exp = cust, o_custom(op[1], n, prev)
+            else:
+                comp, exp = st, None
+                if op[1] not in bands:
+                    lo = np.zeros(n, bool)
+                    hi = np.zeros(n, bool)
+                    fr = False
+                    for v in vecs:
+                        a, b, c = (_sc_o_mad if op[1] == "mad" else _sc_o_iqrm)(v, thr)
+                        lo |= a
+                        hi |= b
+                        fr = fr or c
+                    bands[op[1]] = (lo, hi, fr)
+                lo, hi, fr = bands[op[1]]
+                if fr:
+                    R.extra_cov["scale_decisions_not_demanded"] = R.extra_cov.get("scale_decisions_not_demanded", 0) + 1
+                if not fr and (np.any(lo & ~st) or np.any(st & ~hi)):
+                    R.fail(f"scale-stats-mask-{op[1]}", "in a long history / on many channels stats_mask is not the rule applied to the three statistic vectors",
+                           dict(case, n_got=int(st.sum()), n_must=int(lo.sum()), n_may=int(hi.sum()), missed=np.where(lo & ~st)[0][:8].tolist(), spurious=np.where(st & ~hi)[0][:8].tolist()))
+                    break
+            if exp is not None and not np.array_equal(comp, exp):
+                R.fail("scale-user-mask-range" if op[0] == "mask" else "scale-custom-mask",
+                       "in a long history / on many channels the mask set by the operation is not the one the operation defines",
+                       dict(case, n_got=int(comp.sum()), n_expected=int(exp.sum()), differ_at=np.where(comp ^ exp)[0][:8].tolist()))
+                break
+            if not np.array_equal(cur, prev | comp):
+                R.fail("scale-union", "in a long history chan_mask after an operation is not (chan_mask before) | (mask of the operation)",
+                       dict(case, differ_at=np.where(cur ^ (prev | comp))[0][:8].tolist()))
+                break
+            prev = cur
+
+
+# ---- (f) HDF5 round trip of masks with more than 2**16 / 2**20 channels -----------------------------------------------------
+def _scale_h5(R, d, rfi, Header):
+    import attrs
+    for i, n in enumerate((65537, (1 << 20) + 1)):
+        nprng, seed = _sc_rng(R, 6, i)
+        hdr = Header(filename="obs.fil", data_type="filterbank", nchans=n, foff=-0.0009765625, fch1=1500.0, nbits=8, tsamp=0.000064, tstart=58543.25,
+                     nsamples=(1 << 31) + 5, source="J0534+2200", telescope="Parkes", ibeam=3, nbeams=13, dm=56.75)
+        thr = 2.5
+        arrs = [nprng.normal(0, 1, n).astype(np.float32) for _ in range(6)]
+        for a in arrs[:4]:
+            a[[0, n - 1, 65536]] = (3.0e38, -3.0e38, 1.0e-30)
+        m = rfi.RFIMask(thr, hdr, *arrs)
+        m.apply_mask([(1495.0, 1497.25), (1500.0 - (n - 1) / 1024.0, 1500.0 - (n - 3) / 1024.0)])
+        m.apply_funcn(custom_fn(2, n))
+        case = {"op": "h5", "nchans": n, "threshold": thr, "np_seed": seed, "generator": "props/c16.py _scale_h5"}
+        R.tick(case)
+        R.case(("scale", "h5", n), regime="scale")
+        try:
+            p1, p2 = os.path.join(d, f"m{i}a.h5"), os.path.join(d, f"m{i}b.h5")
+            m2 = rfi.RFIMask.from_file(m.to_file(p1))
+            m3 = rfi.RFIMask.from_file(m2.to_file(p2))
+        except Exception as e:  # noqa: BLE001
+            R.fail("scale-h5-raises", f"mask file round trip raised {type(e).__name__} for a mask with many channels", dict(case, error=str(e)[:300]))
+            continue
+        for gen, mm in ((1, m2), (2, m3)):
+            for a in attrs.fields(rfi.RFIMask):
+                v1, v2 = getattr(m, a.name), getattr(mm, a.name)
+                if a.name == "header":
+                    for h in attrs.fields(Header):
+                        if h.name == "stream_info":
+                            continue
+                        x1, x2 = getattr(v1, h.name), getattr(v2, h.name)
+                        if h.name == "coord":
+                            ok = abs(x1.icrs.ra.deg - x2.icrs.ra.deg) < 1e-9 and abs(x1.icrs.dec.deg - x2.icrs.dec.deg) < 1e-9
+                        elif h.name in ("azimuth", "zenith"):
+                            ok = abs(x1.deg - x2.deg) < 1e-9
+                        else:
+                            ok = bool(x1 == x2)
+                        if not ok:
+                            R.fail("scale-h5-header-field", f"header field '{h.name}' of a mask with many channels is not reproduced by RFIMask.from_file(to_file())",
+                                   dict(case, generation=gen, field=h.name, saved=str(x1), loaded=str(x2)))
+                elif isinstance(v1, np.ndarray):
+                    if not (isinstance(v2, np.ndarray) and v1.shape == v2.shape and v1.dtype == v2.dtype and np.array_equal(v1, v2)):
+                        same_shape = isinstance(v2, np.ndarray) and v1.shape == v2.shape
+                        R.fail("scale-h5-arrays", f"array '{a.name}' of a mask with many channels is not reproduced by RFIMask.from_file(to_file())",
+                               dict(case, generation=gen, array=a.name, saved_shape=list(v1.shape), loaded_shape=list(np.shape(v2)), saved_dtype=str(v1.dtype),
+                                    loaded_dtype=str(getattr(v2, "dtype", type(v2).__name__)), first_diff=int(np.argmax(v1 != v2)) if same_shape else None))
+                elif a.name == "threshold" and float(v1) != float(v2):
+                    R.fail("scale-h5-threshold", "threshold is not reproduced by RFIMask.from_file(to_file())", dict(case, generation=gen, saved=float(v1), loaded=float(v2)))
+        del m, m2, m3, arrs
+
+
+def scale(R: vlib.Run):
+    """at-scale search: the kernel on blocks of 2**16 .. 2**24 elements and up to 2**24 channels; the two outlier rules on vectors of
+    2**16 .. 2**24 (double MAD) / 2**20 (IQRM) entries; apply_channel_mask and clean_rfi on files far longer than the default gulp (gulps 16384, non-dividing, above
+    65536, one sample; blocks of 2**20 .. 2**24 elements; 40000 blocks; more than 65536 channels; every depth; values at the limits of
+    the sample type); histories of 1500 operations and masks of 2**16 + 1 / 2**20 + 1 channels; HDF5 round trips of such masks"""
+    import shutil
+    warnings.simplefilter("ignore")
+    from sigpyproc.core import kernels, rfi
+    from sigpyproc.header import Header
+    d = os.path.join(vlib.SCRATCH, f"c16s_{os.getpid()}")
+    os.makedirs(d, exist_ok=True)
+    try:
+        _scale_kernel(R, kernels)
+        _scale_rules(R, rfi)
+        _scale_files(R, d)
+        _scale_clean(R, d, rfi)
+        _scale_history(R, rfi, Header)
+        _scale_h5(R, d, rfi, Header)
+    finally:
+        shutil.rmtree(d, ignore_errors=True)
